@@ -6,6 +6,13 @@ From Bluge Require Import Base.Int64 Base.NumBits Base.Res Gen.ParamsNumeric Sea
 Import ListNotations.
 Open Scope Z_scope.
 
+(* the proofs of this development are for these values of the regenerated constants; a changed
+   constant fails here at once (closed numerals) instead of in a slow failing conversion later *)
+Lemma gen_constants :
+  query_precision_step = 4 /\ numeric_precision_step = 4 /\ datetime_precision_step = 4 /\
+  geo_precision_step = 9 /\ shift_start_int64 = 32.
+Proof. repeat split; reflexivity. Qed.
+
 (* ---------- the 7-bit digit loop ---------- *)
 
 Lemma digits7_acc n : forall x acc, digits7 n x acc = digits7 n x [] ++ acc.
@@ -406,7 +413,7 @@ Qed.
 
 Lemma index_tokens_datetime v :
   index_tokens v datetime_precision_step = index_tokens v numeric_precision_step.
-Proof. reflexivity. Qed.
+Proof. replace datetime_precision_step with numeric_precision_step by reflexivity. reflexivity. Qed.
 
 (* every byte after the header of any term is a 7-bit digit: the candidate strings with a byte
    >= 0x80 that termRange.Enumerate walks through are never terms of a numeric field *)
